@@ -7,6 +7,16 @@ ALL = ['C%02d' % i for i in range(1, 21)]
 
 # id -> (category, technique, level text, level note, design ref)
 CHECKS = {
+ 'C01': ('exploration',
+         'exhaustive enumeration of synthetic catalogs (all halo-variant sequences per superslab up to the bound) x loader options on the real loader, checked against an ownership model',
+         'Every catalog built from the halo-variant alphabet (particle counts 0-2, L0 gaps, merged ranges, junk, cleaned-away) with <=S superslabs of <=H halos is loaded under every core option, rich catalogs under every option; each row\'s slice must decode to exactly the record identities the model assigns.',
+         'asdf.open served by an in-memory double (validated against real ASDF files, uncompressed and blsc, in the same run); identities carried in record bits',
+         'DESIGN.md 4/C01'),
+ 'C02': ('exploration',
+         'exhaustive differential enumeration of field lists (singles, ordered pairs, ordered cluster subsets, all, default) x cleaned x subsample configs on the real loader',
+         'Every valid column alone, in every ordered pair with the probe set (thorough: with every column), every ordered subset of each derived-column cluster: the values must equal the fields=all load bit for bit and no request may raise.',
+         'the all-fields load is the reference; in-memory asdf double',
+         'DESIGN.md 4/C02'),
  'C19': ('exploration',
          'exhaustive enumeration of the finite input product (lengths x flags x offsets x dtypes x output lengths) on the interpreted twin, the compiled kernel in guard zones and the NUMBA_BOUNDSCHECK=1 build',
          'Every (length 0..9, initial, final, offset, dtype pairing, output length) combination is executed three ways and compared with numpy.cumsum; the loop body has no length-dependent branch beyond N=0/1, so 0..9 covers every path.',
